@@ -344,18 +344,51 @@ def check_stub_next_to_sidecar(which, rec):
         os.mkdir(away)
         for f in [x for x in os.listdir(root) if x.endswith(".ih5")]:
             shutil.move(os.path.join(root, f), os.path.join(away, f))  # containers elsewhere, manifests stay
-        before = recutil.dir_digest(root)
+        for n_ in [x for x in os.listdir(root) if x.endswith(".json")]:
+            shutil.copy(os.path.join(root, n_), os.path.join(away, "_mf_" + n_))  # pristine copies of the manifests
+        before = {k: v for k, v in recutil.dir_digest(root).items() if not k.startswith("away")}
         mfile = os.path.join(root, "rec.ih5mf.json" if which == "base" else "rec.p1.ih5mf.json")
-        try:
+
+        def stub():
             st_ = IH5MFRecord.create_stub(Path(p), Path(mfile))
             st_.close()
-        except Exception:  # noqa: BLE001 - refusing is fine
-            H.close_leaked_h5()
-        after = recutil.dir_digest(root)
-        ch = sorted(n for n in before if n.endswith(".json") and after.get(n) != before[n])
-        if ch:
-            rec.fail("C02:manifest-of-committed-container-replaced:create_stub", case,
-                     f"create_stub('rec', {os.path.basename(mfile)}) changed {ch}", "manifest sidecars of committed containers untouched")
+
+        def create(mode):
+            def f():
+                r_ = IH5MFRecord(p, mode)
+                r_["z"] = 1
+                r_.close()
+            return f
+
+        def merge_onto():
+            o = IH5MFRecord(os.path.join(away, "other"), "w")
+            o["q"] = 1
+            o.close()
+            o = IH5MFRecord(os.path.join(away, "other"), "r")
+            try:
+                o.merge_files(Path(p))
+            finally:
+                o.close()
+
+        for how, fn in (("create_stub", stub), ("open-a", create("a")), ("open-x", create("x")), ("merge-onto-name", merge_onto)):
+            try:
+                fn()
+            except Exception:  # noqa: BLE001 - refusing is fine
+                H.close_leaked_h5()
+            after = recutil.dir_digest(root)
+            ch = sorted(n for n in before if n.endswith(".json") and after.get(n) != before[n])
+            if ch:
+                rec.fail(f"C02:manifest-of-committed-container-replaced:{how}", dict(case, how=how),
+                         f"{how} under the name 'rec' changed {ch}", "manifest sidecars of committed containers untouched")
+            # back to the situation: only the manifests of the original record
+            for f_ in os.listdir(root):
+                if f_ != "away":
+                    os.unlink(os.path.join(root, f_))
+            for f_ in [x for x in os.listdir(away) if x.startswith("rec.") and x.endswith(".json.bak")]:
+                pass
+            for n_ in before:
+                if n_.endswith(".json"):
+                    shutil.copy(os.path.join(away, "_mf_" + n_), os.path.join(root, n_))
         rec.case(nt_key=["stubsidecar", which], classes=["stub_next_to_kept_manifest"], sample=case)
     finally:
         H.close_leaked_h5()
